@@ -1333,13 +1333,25 @@ Proof.
   - unfold inscope_ns. apply PL; auto.
 Qed.
 
-Lemma lre_Inv : forall s name inscope excl attrs, Inv s ->
-  hz (exec_lre s name inscope excl attrs) = [] -> Inv (exec_lre s name inscope excl attrs).
+Definition hz_ext_pre (s s' : st) : Prop := exists l, hz s' = l ++ hz s.
+
+Lemma hz_lre_open : forall s name inscope excl attrs,
+  hz (lre_open s name inscope excl attrs) = hz (add_hz_if (negb (lre_wf name inscope attrs)) HUnsupported s).
+Proof. intros. unfold lre_open. cbv zeta. rewrite hz_lre_fixup, hz_output_ns_fold, hz_start. reflexivity. Qed.
+
+(* the state after the start tag, the declarations and the default-namespace check *)
+Lemma open_facts : forall s name inscope excl attrs, Inv s ->
+  hz (lre_open s name inscope excl attrs) = [] ->
+  let s3 := lre_open s name inscope excl attrs in
+  let req := req_lre_elem name inscope in
+  InvCore s3 /\ pend s3 = Some (name, req) /\ Pelem (stk s3) name req /\ alldecl (pattrs s3) = true
+  /\ lre_wf name inscope attrs = true
+  /\ (forall d, In d (lre_decls name inscope excl attrs) ->
+        match fst d with Some x => stk_lookup (Some x) (stk s3) = Some (snd d) | None => True end).
 Proof.
-  intros s name inscope excl attrs HI. unfold exec_lre. cbv zeta.
-  rewrite hz_lre_attrs, hz_lre_fixup, hz_output_ns_fold, hz_start.
+  intros s name inscope excl attrs HI. rewrite hz_lre_open. unfold lre_open. cbv zeta.
   destruct (lre_wf name inscope attrs) eqn:W; cbn [negb]; unfold add_hz_if; [|discriminate].
-  intros _.
+  intros _. pose proof W as W0.
   unfold lre_wf in W. apply andb_true_iff in W. destruct W as [W W4].
   apply andb_true_iff in W. destruct W as [W W3]. apply andb_true_iff in W. destruct W as [W1 W2].
   set (req := req_lre_elem name inscope).
@@ -1352,17 +1364,104 @@ Proof.
   set (s2 := fold_left output_ns D s1) in *.
   destruct (fixup_spec s2 name inscope excl attrs HI2 Hp2 HD2 W1 W2) as (HI3 & Hp3 & _ & He3 & Hfr3 & Hpa3).
   set (s3 := lre_fixup s2 name inscope) in *.
-  assert (Had3 : alldecl (pattrs s3) = true).
-  { destruct Hpa3 as [E|[u E]]; rewrite E; [exact Had2|]. apply alldecl_add; [exact Had2 | reflexivity]. }
+  repeat split; auto.
+  - destruct Hpa3 as [E|[u E]]; rewrite E; [exact Had2|]. apply alldecl_add; [exact Had2 | reflexivity].
+  - intros d Hd. pose proof (HD2 d Hd) as X. unfold dres in X. destruct (fst d) as [x|]; [|exact I].
+    rewrite Hfr3. exact X.
+Qed.
+
+Lemma open_Inv : forall s name inscope excl attrs, Inv s ->
+  hz (lre_open s name inscope excl attrs) = [] -> Inv (lre_open s name inscope excl attrs).
+Proof.
+  intros s name inscope excl attrs HI Hh.
+  destruct (open_facts s name inscope excl attrs HI Hh) as (HI3 & Hp3 & He3 & _).
+  apply (Inv_of _ name (req_lre_elem name inscope)); auto.
+Qed.
+
+Lemma lre_Inv : forall s name inscope excl attrs, Inv s ->
+  hz (exec_lre s name inscope excl attrs) = [] -> Inv (exec_lre s name inscope excl attrs).
+Proof.
+  intros s name inscope excl attrs HI. unfold exec_lre. rewrite hz_lre_attrs. intro Hh.
+  destruct (open_facts s name inscope excl attrs HI Hh) as (HI3 & Hp3 & He3 & Had3 & W & HD3).
+  set (s3 := lre_open s name inscope excl attrs) in *. set (req := req_lre_elem name inscope) in *.
+  unfold lre_wf in W. apply andb_true_iff in W. destruct W as [W W4].
+  apply andb_true_iff in W. destruct W as [W W3]. apply andb_true_iff in W. destruct W as [W1 W2].
   destruct (lre_attrs_fold (fun q => req_lre_attr q inscope) attrs s3 (name, req) HI3 Hp3) as (HI4 & Hp4 & Hk4 & _).
   - intros a Hin. rewrite forallb_forall in W3. specialize (W3 a Hin).
     destruct (decl_prefix (fst a)) eqn:Dn; [discriminate|]. split; [reflexivity|].
     apply (lre_attr_ok name inscope excl attrs (stk s3) a W1); auto.
-    intros d Hd. pose proof (HD2 d Hd) as X. unfold dres in X. destruct (fst d) as [x|]; [|exact I].
-    rewrite Hfr3. exact X.
   - exact W4.
   - intros a _. apply alldecl_exb. exact Had3.
   - unfold lre_attrs. apply (Inv_of _ name req); auto. rewrite Hk4. exact He3.
+Qed.
+
+(* literal attributes that arrive after the attribute sets *)
+Lemma hz_ext_if_emit : forall b h s n v r, hz_ext_pre s (emit_attr (add_hz_if b h s) n v r).
+Proof.
+  intros b h s n v r. unfold hz_ext_pre. destruct (emit_attr_hz_mono (add_hz_if b h s) n v r) as [l Hl]. rewrite Hl.
+  destruct b; unfold add_hz_if, add_hz; cbn [hz].
+  - exists (l ++ [h]). rewrite <- app_assoc. reflexivity.
+  - exists l. reflexivity.
+Qed.
+
+Lemma hz_ext_late_attr : forall s inscope a, hz_ext_pre s (late_attr s inscope a).
+Proof.
+  intros s inscope a. unfold late_attr. destruct (pend s); [|exists [HUnsupported]; reflexivity].
+  cbv zeta. apply hz_ext_if_emit.
+Qed.
+
+Lemma hz_ext_late : forall inscope attrs s, hz_ext_pre s (lre_attrs_late s inscope attrs).
+Proof.
+  intros inscope. unfold lre_attrs_late. induction attrs as [|a r IH]; intro s; simpl.
+  - exists []. reflexivity.
+  - destruct (IH (late_attr s inscope a)) as [l2 H2]. destruct (hz_ext_late_attr s inscope a) as [l1 H1].
+    exists (l2 ++ l1). rewrite H2, H1, app_assoc. reflexivity.
+Qed.
+
+Lemma late_attr_Inv : forall s inscope a, Inv s -> hz (late_attr s inscope a) = [] -> Inv (late_attr s inscope a).
+Proof.
+  intros s inscope [[P L] v] HI. unfold late_attr. cbn [fst snd].
+  destruct (pend s) as [[q req]|] eqn:Hp; [|unfold add_hz; cbn [hz]; discriminate].
+  cbv zeta. intro Hh.
+  destruct (emit_hz_nil _ _ _ _ Hh) as [Hn Hh0].
+  set (m := match P with
+            | Some AXml | None => false
+            | Some x => match ns_for_prefix (stk s) (Some x) with
+                        | Some w => negb (N.eqb w (fst (req_lre_attr (P, L) inscope))) || N.eqb w 0
+                        | None => true
+                        end
+            end) in *.
+  destruct m eqn:Em; [unfold add_hz_if, add_hz in Hh0; cbn [hz] in Hh0; discriminate|].
+  unfold add_hz_if in *. apply (H_emit_only s q req); auto.
+  unfold attr_okb. cbn [a_name a_req]. rewrite Hn. unfold mresolve_attr, req_lre_attr. cbn [fst snd].
+  destruct P as [x|]; [|apply ename_eqb_refl].
+  assert (PL : forall y, plain_atom y = true ->
+            match ns_for_prefix (stk s) (Some y) with
+            | Some w => negb (N.eqb w (fst (req_lre_attr (Some y, L) inscope))) || N.eqb w 0
+            | None => true
+            end = false ->
+            opt_ename_eqb (match mresolve (stk s) (Some y) with Some u => Some (u, L) | None => None end)
+              (match inscope_ns inscope (Some y) with Some u => u | None => 0 end, L) = true).
+  { intros y Hy H. destruct (plain_ne y Hy) as [N1 N2]. rewrite (nfp_raw (stk s) (Some y) N1 N2) in H.
+    destruct (stk_lookup (Some y) (stk s)) as [w|] eqn:E; [|discriminate].
+    apply orb_false_iff in H. destruct H as [H1 H2]. apply negb_false_iff in H1. apply N.eqb_eq in H1.
+    unfold req_lre_attr in H1. cbn [fst snd] in H1.
+    unfold mresolve. rewrite E. destruct y; simpl in Hy; try discriminate; rewrite H2, H1; apply ename_eqb_refl. }
+  destruct x.
+  - simpl in Hn. discriminate.
+  - cbn. apply atom_eqb_refl.
+  - apply PL; [reflexivity | exact Em].
+  - apply PL; [reflexivity | exact Em].
+  - apply PL; [reflexivity | exact Em].
+Qed.
+
+Lemma late_Inv : forall inscope attrs s, Inv s ->
+  hz (lre_attrs_late s inscope attrs) = [] -> Inv (lre_attrs_late s inscope attrs).
+Proof.
+  intros inscope. unfold lre_attrs_late. induction attrs as [|a r IH]; intros s HI Hh; simpl in *; [exact HI|].
+  apply IH; [|exact Hh]. apply late_attr_Inv; [exact HI|].
+  destruct (hz_ext_late inscope r (late_attr s inscope a)) as [l Hl]. unfold lre_attrs_late in Hl.
+  rewrite Hl in Hh. apply app_eq_nil in Hh. tauto.
 Qed.
 
 (* ---------------------------------------------------------------------------------------- *)
@@ -1486,10 +1585,14 @@ Proof.
   - cbn [N.eqb]. eapply hz_ext_trans; [|apply hz_ext_add]. apply hz_ext_eq. apply hz_start.
 Qed.
 
+Lemma hz_ext_open : forall s name inscope excl attrs, hz_ext s (lre_open s name inscope excl attrs).
+Proof.
+  intros. eapply hz_ext_trans; [apply hz_ext_if|]. apply hz_ext_eq. apply hz_lre_open.
+Qed.
+
 Lemma hz_ext_lre : forall s name inscope excl attrs, hz_ext s (exec_lre s name inscope excl attrs).
 Proof.
-  intros. unfold exec_lre. cbv zeta. eapply hz_ext_trans; [apply hz_ext_if|]. apply hz_ext_eq.
-  rewrite hz_lre_attrs, hz_lre_fixup, hz_output_ns_fold, hz_start. reflexivity.
+  intros. unfold exec_lre. eapply hz_ext_trans; [apply hz_ext_open|]. apply hz_ext_eq. apply hz_lre_attrs.
 Qed.
 
 Lemma hz_ext_op : forall s o, hz_ext s (exec_op s o).
@@ -1500,6 +1603,8 @@ Proof.
   - apply hz_ext_attr.
   - apply hz_ext_elem.
   - apply hz_ext_lre.
+  - apply hz_ext_open.
+  - apply hz_ext_late.
 Qed.
 
 (* ---------------------------------------------------------------------------------------- *)
@@ -1513,6 +1618,8 @@ Proof.
   - apply attr_Inv; assumption.
   - apply elem_Inv; assumption.
   - apply lre_Inv; assumption.
+  - apply open_Inv; assumption.
+  - apply late_Inv; assumption.
 Qed.
 
 Lemma Inv_init : Inv init_st.
